@@ -181,14 +181,17 @@ CHECKS.update({
             "6 C03", SEQ_NOTE + " Bounded scope of the property (<= 7 providers, <= 3 trees) is the generator's scope; the theorems are unbounded.",
             "Coq proof (specification soundness/completeness, per-stage equality, refutation witnesses by vm_compute) + three-way differential "
             "execution as correspondence and search for failing inputs"),
-    'C02': ("proof", "PARTIAL. Proved for the code model (both the observed and the all-anchors result): every provider named by a candidate "
-            "exists and every supplying provider has the summary derived from the stored state. Proved for the specification's candidates "
-            "(compared with the application's on every generated case): per class the placed amounts sum to the total requested, each "
-            "(provider, class) once; suffixed groups in full on the provider their mapping names, unsuffixed classes on a provider of the "
-            "unsuffixed mapping; the write path's capacity check (check_capacity of the allocation-write model) accepts the candidate. Not "
-            "proved: consumer creation and generation compare-and-swap of the claim. The check claims up to 12 candidates of every answer on "
-            "the real application (PUT /allocations for a new consumer at the query's microversion -> 204) and recomputes amounts, mappings "
-            "and provider summaries from the stored tables.",
+    'C02': ("proof", "Proved for the code model's candidates, sharing providers included (C02_code_claimable_reachable, through the "
+            "soundness of the search C03_sound): in every state reached by well-formed requests, whatever the candidate search returns "
+            "as a list, sent as returned as the allocations of a new consumer (from 1.28), is answered 204 by the allocation-write model "
+            "- consumer creation, provider look-ups, capacity and unit checks and both compare-and-swaps included; the claim is a legal "
+            "request and the state after it is reachable again; no hypothesis on the database is left (Forest, RI and non-negative usage "
+            "are proved invariants), one on the query (each class once in the unsuffixed group) is derived for accepted query strings. "
+            "Also: every provider named by a candidate exists, every supplying provider has the summary derived from the stored state, "
+            "one row per (provider, class); for the specification's candidates amounts add up and groups are placed in full. Not "
+            "covered by theorems: claims below 1.28; KeyError / order-dependent answers (no list returned - recorded C03/C15 findings). "
+            "The check claims up to 12 candidates of every answer on the real application (PUT /allocations for a new consumer at the "
+            "query's microversion -> 204) and recomputes amounts, mappings and provider summaries from the stored tables.",
             "6 C02", SEQ_NOTE,
             "Coq proof (pipeline invariant for providers/summaries; claimability against the write model) + three-way differential execution "
             "+ claiming every returned candidate on the application (oracle)"),
